@@ -94,6 +94,7 @@ def rule_typestate(F, ev_unused, R, config, rule="R-TYPESTATE"):
             R.bad(rule, config, ADT_MBUILDER, "anchor-missing:" + m, "builder method `%s` not found" % m)
     fin = finaliser(F)
     import props
+    UR = unfinished_roles(F, props.make_eval(F))
     ev = Eval(F, opaque=set(props.make_eval(F).opaque) | {fin.key})
     fin_cid = strip_generics(fin.j["path"])
     vfields = {v["name"]: [f["name"] for f in v["fields"]] for v in adt(F, ADT_MBUILDER)["variants"]}
@@ -132,7 +133,7 @@ def rule_typestate(F, ev_unused, R, config, rule="R-TYPESTATE"):
 
     def pending(b):
         me = ("param", b.key, 1)
-        return ("payload", me, "FunctionBuilding", "model"), ("payload", me, "FunctionBuilding", "function_builder")
+        return ("payload", me, "FunctionBuilding", UR["fb_model"]), ("payload", me, "FunctionBuilding", UR["fb_builder"])
 
     def finalised_forms(b, name, norm_model_term, err_wrap):
         """(ok, msg): the value for the FunctionBuilding state equals the value for the Normal state with the
@@ -185,7 +186,7 @@ def rule_typestate(F, ev_unused, R, config, rule="R-TYPESTATE"):
         ok = False
         if val and val[0] == "agg" and val[2] == "FunctionBuilding":
             f = dict(val[3])
-            ok = f.get("model") == ("payload", me, "Normal", "0")
+            ok = f.get(UR["fb_model"]) == ("payload", me, "Normal", "0")
         R.add(rule, config, b.key, "function:keeps-the-model", ok, "" if ok else "function() does not carry the unfinished model over", b.j["span"])
     if "partial_deriv" in ms:
         b = ms["partial_deriv"]
@@ -194,7 +195,7 @@ def rule_typestate(F, ev_unused, R, config, rule="R-TYPESTATE"):
         ok = False
         if val and val[0] == "agg" and val[2] == "FunctionBuilding":
             f = dict(val[3])
-            ok = f.get("model") == ("payload", me, "FunctionBuilding", "model")
+            ok = f.get(UR["fb_model"]) == ("payload", me, "FunctionBuilding", UR["fb_model"])
         R.add(rule, config, b.key, "partial_deriv:keeps-the-model", ok, "" if ok else "partial_deriv() does not carry the unfinished model over", b.j["span"])
         val = table.get(("partial_deriv", "Normal"))
         ok = val is not None and val[0] == "agg" and val[2] == "Error" and val[3][0][1][0] == "agg" and val[3][0][1][2] == "IllegalCallToPartialDeriv"
@@ -369,6 +370,46 @@ def rule_fn_result_sticky(F, ev, R, config, rule="R-FN-RESULT-STICKY"):
 # --------------------------------------------------------------------------- #
 # guard tables (on quantified guard formulas, see logic.py)
 # --------------------------------------------------------------------------- #
+def unfinished_roles(F, ev):
+    """fields of UnfinishedModel / SeparableModel / ModelBasisFunction / the FunctionBuilding state by TYPE and USE, so
+    that renaming private fields does not matter: {"u_names","u_functions","u_x","u_init","s_names","s_functions","s_x",
+    "s_params","derivs","fb_model","fb_builder"}"""
+    from rules_model import sepmodel_roles
+    sm = sepmodel_roles(F, ev)
+    r = {"s_names": sm["names"], "s_functions": sm["functions"], "s_x": sm["x"], "s_params": sm["params"], "derivs": sm["derivs"], "fn": sm["fn"]}
+    fs = struct_fields(F, ADT_UNFINISHED)
+    nv = [f["name"] for f in fs if f["ty"].startswith("std::vec::Vec<std::string::String")]
+    fv = [f["name"] for f in fs if f["ty"].startswith("std::vec::Vec<") and "ModelBasisFunction" in f["ty"]]
+    ov = [f["name"] for f in fs if f["ty"].startswith("std::option::Option<")]
+    if len(nv) != 1 or len(fv) != 1 or len(ov) != 2:
+        raise AnchorMissing("UnfinishedModel roles: names=%s functions=%s optionals=%s" % (nv, fv, ov))
+    r["u_names"], r["u_functions"] = nv[0], fv[0]
+    # x / initial guess: which optional field flows into which role of the built SeparableModel
+    for x in F.bodies.values():
+        if str(x.j.get("impl", {}).get("trait", "")).startswith("std::clone") or str(x.j.get("impl", {}).get("trait", "")).startswith("std::fmt"):
+            continue
+        for bi, si, st in x.stmts():
+            if st["k"] == "assign" and st["rv"]["k"] == "agg" and st["rv"].get("adt") == ADT_SEPMODEL:
+                v = ev.rvalue(Env(x), st["rv"], (bi, si))
+                f = dict(v[3])
+                for role, fld in (("u_x", sm["x"]), ("u_init", sm["params"])):
+                    hit = [o for o in ov if contains(f.get(fld), lambda y: y[0] == "field" and y[2] == o and y[1][0] == "param")]
+                    if len(hit) == 1:
+                        r[role] = hit[0]
+    if "u_x" not in r or "u_init" not in r or r["u_x"] == r["u_init"]:
+        raise AnchorMissing("UnfinishedModel x / initial-parameter roles not resolved: %s" % {k: r.get(k) for k in ("u_x", "u_init")})
+    for v in adt(F, ADT_MBUILDER)["variants"]:
+        if v["name"] == "FunctionBuilding":
+            for f in v["fields"]:
+                if ADT_UNFINISHED in f["ty"]:
+                    r["fb_model"] = f["name"]
+                elif ADT_FNBUILDER in f["ty"]:
+                    r["fb_builder"] = f["name"]
+    if "fb_model" not in r or "fb_builder" not in r:
+        raise AnchorMissing("FunctionBuilding state fields")
+    return r
+
+
 def err_sites(F, variant):
     out = []
     for b in F.bodies.values():
@@ -448,6 +489,8 @@ def rule_build_guards(F, ev_unused, R, config, rule="R-BUILD-GUARDS"):
     boolfns = [k for k, b in F.bodies.items() if b.kind != "Closure" and b.j.get("output") == "bool"]
     ev = Eval(F, opaque=[b.key for b in builder_methods(F).values()] + boolfns)
     L = logic.Logic(ev)
+    import props
+    UR = unfinished_roles(F, props.make_eval(F))
 
     def in_fn(name):
         return lambda b: b.j.get("root", b.key).endswith(name)
@@ -577,7 +620,7 @@ def rule_build_guards(F, ev_unused, R, config, rule="R-BUILD-GUARDS"):
         # the check may sit in the method or in a closure it hands to a helper: the guess is the ROOT function's argument
         return conj_find(c, lambda f: f[0] == "rel" and f[1] == "Ne" and
                          any(x[0] == "call" and x[1].endswith("::len") and x[3][0] == P2(RB(b)) for x in (f[2], f[3])) and
-                         any(x[0] == "call" and x[1].endswith("::len") and contains(x, lambda y: y[0] == "field" and y[2] == "parameter_names") for x in (f[2], f[3])))
+                         any(x[0] == "call" and x[1].endswith("::len") and contains(x, lambda y: y[0] == "field" and y[2] == UR["u_names"]) for x in (f[2], f[3])))
     chk("IncorrectParameterCount", lambda b: RB(b).j.get("impl", {}).get("self_adt") == ADT_MBUILDER, init_len,
         "initial guess length ≠ number of model parameters")
     # --- try_into -----------------------------------------------------------------------------
@@ -591,8 +634,8 @@ def rule_build_guards(F, ev_unused, R, config, rule="R-BUILD-GUARDS"):
             if st["k"] == "assign" and st["rv"]["k"] == "agg" and st["rv"].get("adt") == ADT_SEPMODEL:
                 validators.add(x.j.get("root", x.key))
     ti = lambda b: b.j.get("root", b.key) in validators
-    FN = lambda b: ("field", P1(F.bodies[b.j.get("root", b.key)]), "basefunctions")
-    NM = lambda b: ("field", P1(F.bodies[b.j.get("root", b.key)]), "parameter_names")
+    FN = lambda b: ("field", P1(F.bodies[b.j.get("root", b.key)]), UR["u_functions"])
+    NM = lambda b: ("field", P1(F.bodies[b.j.get("root", b.key)]), UR["u_names"])
     chk("EmptyModel", ti, lambda c, b, e, s: conj_find(c, lambda f: (lambda t: t is not None and t[3][0] == FN(b))(atom_call(f, "::is_empty", True))), "no basis function")
 
     def unused_core(f, b, positive_use):
@@ -602,10 +645,10 @@ def rule_build_guards(F, ev_unused, R, config, rule="R-BUILD-GUARDS"):
         if f[0] != q or f[1] != FN(b):
             return False
         t = atom_call(f[2], "HashMap::contains_key", positive_use)
-        return t is not None and t[3][0] == ("field", ("item", FN(b)), "derivatives") and t[3][1] == ("idx", NM(b))
+        return t is not None and t[3][0] == ("field", ("item", FN(b)), UR["derivs"]) and t[3][1] == ("idx", NM(b))
     chk("UnusedParameter", ti, lambda c, b, e, s: conj_find(c, lambda f: unused_core(f, b, False)), "a model parameter is used by no function")
 
-    for variant, field in (("MissingX", "x_vector"), ("MissingInitialParameters", "initial_parameters")):
+    for variant, field in (("MissingX", UR["u_x"]), ("MissingInitialParameters", UR["u_init"])):
         sites = [x for x in err_sites(F, variant) if ti(x[0])]
         if not sites:
             R.bad(rule, config, "-", "missing:" + variant, "missing %s is not reported" % field)
@@ -634,11 +677,11 @@ def rule_build_guards(F, ev_unused, R, config, rule="R-BUILD-GUARDS"):
                           "" if ok2 else "the model can be built before every model parameter was checked for use; conditions: %s" % "; ".join(logic.show_f(c)[:80] for c in conds)[:300], s.get("span"))
                     v = ev.rvalue(Env(b), s["rv"], (bi, si))
                     f = dict(v[3])
-                    okx = ok_of(f.get("x_vector")) == ("field", me, "x_vector") or f.get("x_vector") == ("payload", ("field", me, "x_vector"), "ok", "0")
-                    oki = contains(f.get("current_parameters"), lambda x: x == ("payload", ("field", me, "initial_parameters"), "ok", "0"))
-                    R.add(rule, config, b.key, "model-needs:x", okx, "" if okx else "x is `%s`" % short(f.get("x_vector"))[:80], s.get("span"))
-                    R.add(rule, config, b.key, "model-needs:initial-parameters", oki, "" if oki else "initial parameters are `%s`" % short(f.get("current_parameters"))[:80], s.get("span"))
-                    okn = f.get("parameter_names") == ("field", me, "parameter_names") and f.get("basefunctions") == ("field", me, "basefunctions")
+                    okx = ok_of(f.get(UR["s_x"])) == ("field", me, UR["u_x"]) or f.get(UR["s_x"]) == ("payload", ("field", me, UR["u_x"]), "ok", "0")
+                    oki = contains(f.get(UR["s_params"]), lambda x: x == ("payload", ("field", me, UR["u_init"]), "ok", "0"))
+                    R.add(rule, config, b.key, "model-needs:x", okx, "" if okx else "x is `%s`" % short(f.get(UR["s_x"]))[:80], s.get("span"))
+                    R.add(rule, config, b.key, "model-needs:initial-parameters", oki, "" if oki else "initial parameters are `%s`" % short(f.get(UR["s_params"]))[:80], s.get("span"))
+                    okn = f.get(UR["s_names"]) == ("field", me, UR["u_names"]) and f.get(UR["s_functions"]) == ("field", me, UR["u_functions"])
                     R.add(rule, config, b.key, "model-keeps-names-and-functions", okn, "" if okn else "names/functions are not carried over unchanged", s.get("span"))
     # --- create_wrapped_basis_function: Ok only after names, arity and mapping were checked ------
     from rules_model import wrapper_fn
